@@ -118,19 +118,20 @@ def slots(corpus):
     return out
 
 
-def assign(programs, slot_table, seed):
-    """program i -> slot of its kind (seeded). Returns list of dicts {idx, prog, slot, prefix, objs}."""
+def assign(programs, slot_table, seed, first=0):
+    """program i -> slot of its kind (seeded). Returns list of dicts {idx, prog, slot, prefix, objs}.
+    first: number of the first program (names stay unique over the batches of one run)."""
     rng = random.Random(seed)
     pools = {k: list(v) for k, v in slot_table.items()}
     for k in pools:
         rng.shuffle(pools[k])
     out = []
-    for i, prog in enumerate(programs):
+    for i, prog in enumerate(programs, first):
         pool = pools[prog["kind"]]
         if not pool:
             raise C.ToolError("not enough %s slots for the batch" % prog["kind"])
         slot = pool.pop()
-        prefix = "Vf%03d" % i
+        prefix = "Vf" + P.letters(i + 27).capitalize()     # VfAa, VfAb, ... (two letters up to 650 programs)
         objs = P.raise_program(prog, prefix, slot["name"], slot["opcode"])
         out.append({"idx": i, "prog": prog, "slot": slot, "prefix": prefix, "objs": objs})
     return out
@@ -200,7 +201,7 @@ def attribute_generator_failure(err, entries):
     """Entries whose names (slot, prefixed types, file) occur in the generator's diagnostic."""
     hit = []
     for e in entries:
-        keys = [e["prefix"], e["slot"]["name"], os.path.basename(e["slot"]["file"])]
+        keys = [e["prefix"], e["prefix"].lower(), e["slot"]["name"], os.path.basename(e["slot"]["file"])]
         if any(k in err for k in keys):
             hit.append(e)
     return hit
@@ -334,7 +335,7 @@ def attribute_rustc_errors(errors, entries):
         base = os.path.basename(f).lower()
         owner = None
         for idx, ks, prefix, sname in keys:
-            if base == ks[0] or ks[1] in base or prefix in msg or sname in msg:
+            if base == ks[0] or ks[1] in base.replace("_", "") or prefix in msg or sname in msg:
                 owner = idx
                 break
         by[owner].append((f, code, msg))
